@@ -9,6 +9,7 @@ import KrillModel.Ca.LemmasKeySync
 import KrillModel.Ca.LemmasShrink
 import KrillModel.Ca.LemmasTidyReach
 import KrillModel.Ca.Exchange
+import KrillModel.Ca.ExchangeLemmas
 namespace KM.Props.C02
 open KM KM.CaK KM.Res KM.AMap
 
@@ -382,11 +383,20 @@ and the `RollOld` arm of `append_entitlement_events`.  `sync_idempotent` above i
 unrestricted `Sys`-level statement of the last sentence.  The exchange between two real
 aggregates is `Ca/Exchange.lean`; on it `exchange_idempotent` (below) is proved for every pair,
 and convergence is proved for concrete pairs covering each kind of entitlement change
-(`exchange_converges_instances`).  Missing for the full statement: convergence of `Pair.sync`
-for an ARBITRARY reachable pair – i.e. the proof that every class of the child follows the
-key-state machine above under `Pair.sync` (the parent's `entitlement_class` with the not-after
-"white lie", `issue_cert`, the child's manager steps) – is checked on traces by the `syskeys`
-driver and not proved; hierarchies of more than two levels are composed by the lock-step run only.
+(`exchange_converges_instances`).  For an ARBITRARY reachable pair the statement is FALSE as it
+stands: `sync_stuck_after_parent_side_revocation`, `sync_stuck_with_request_limit`,
+`sync_alternates_with_non_injective_mapping`, `sync_misses_parent_side_reissue` (below) are
+reachable pairs on which `Pair.sync` never converges.  Proved for every reachable pair that
+satisfies the decidable coupling `Pair.coupled` (each conjunct excludes one of those pairs) and
+in which the child has no key roll in progress: `exchange_converges_quiet` (2 syncs when there
+is nothing to send), `exchange_converges_partial` (3 syncs from any such pair), with the
+`Sys`-level simulation of `Pair.sync` class by class in `Ca/ExchangeLemmas.lean`
+(`syncR_spec`, `syncE_spec`).  Still missing: the same with a key roll of the child in progress
+(the class-level machine `sync_converges_partial` covers it; at the pair level it additionally
+needs the old key to be still on file at the parent, see
+`sync_stuck_after_parent_side_revocation`, and `KeyRollActivate` to be accepted for all classes
+at once); hierarchies of more than two levels are composed by the lock-step run only; the
+parent's not-after rule is an input (`na`) of the model, the same for every class.
 -/
 
 /-- From every well-formed key state: two rounds of (sync, activate, sync) and two more syncs
@@ -505,5 +515,285 @@ example :
     (get xConv.parent.ca.classes 0).map (fun rc => keys rc.certs.issued) = some [20] ∧
     (get xNothing.parent.ca.classes 0).map (fun rc => keys rc.certs.issued) = some [] ∧
     xNothing.parent.ca.entitlementsFor 7 900 = [] := by decide
+
+/-! ## Convergence of the exchange for every coupled reachable pair
+
+`Pair.coupled` (`Ca/ExchangeLemmas.lean`) is the conjunction of five decidable predicates on the
+pair: `childHasRepo`, `mappingInjective`, `noRequestLimits`, `classNamesDistinct`, `certsOnFile`.
+The theorems below hold for EVERY pair of reachable aggregates that satisfies it – any number of
+classes, children, certificates, any history on either side.  The counter-models after them show
+that the hypotheses cannot be dropped. -/
+
+/-- The coupling is an invariant of the exchange: every sync keeps it (and keeps both sides
+reachable), provided the sync that fetches entitlements gets a new key for each class it
+creates. -/
+theorem exchange_keeps_coupling (x : Pair) (now na : Int) (f : List KeyId)
+    (hp : Reachable x.parent) (hc : Reachable x.child)
+    (hcoupled : x.coupled = true) (hnoroll : x.noRollInProgress = true)
+    (hf : x.child.ca.hasPendingRequests x.ph = false → x.newClasses na ≤ f.length) :
+    Coupled (x.sync now na f) :=
+  sync_coupled (coupled_of_bool hp hc hcoupled hnoroll) now na f hf
+
+/-- `sync_converges` for the pair, from nothing-to-send: for every coupled pair of reachable
+aggregates in which the child has no open request and no key roll in progress – i.e. after any
+change of entitlements at the parent (resources of the child, resources of the parent's own
+certificates, classes added or removed, class-name mapping) – TWO syncs (entitlements, then the
+requests with their responses) leave the child with exactly one `Active` class per listed class,
+holding exactly the entitled resources, no open request, the same certificate on file at the
+parent; and a further sync changes nothing on either side. -/
+theorem exchange_converges_quiet (x : Pair) (now na : Int) (f1 f2 : List KeyId)
+    (hp : Reachable x.parent) (hc : Reachable x.child)
+    (hcoupled : x.coupled = true) (hnoroll : x.noRollInProgress = true)
+    (hquiet : x.child.ca.hasPendingRequests x.ph = false)
+    (hf : x.newClasses na ≤ f1.length) :
+    (x.syncs now na [f1, f2]).converged na = true ∧
+    ∀ f, (x.syncs now na [f1, f2]).sync now na f = x.syncs now na [f1, f2] := by
+  have h := converges_from_quiet (coupled_of_bool hp hc hcoupled hnoroll) now na f1 f2 hquiet hf
+  exact ⟨h.converged, h.sync_eq⟩
+
+/-
+Full statement (`exchange_converges`): as below, without `hnoroll`.  Missing: a key roll of the
+child in progress in some class under this parent (see the comment above
+`sync_converges_partial`).
+-/
+
+/-- `sync_converges` for the pair, from ANY coupled pair of reachable aggregates without a key
+roll in progress (open requests of any kind in any classes, classes the parent no longer lists,
+listed classes the child does not have yet): THREE syncs – requests, entitlements, requests –
+end converged, and every further sync changes nothing on either side.  New keys are consumed by
+the one sync that fetches the entitlements. -/
+theorem exchange_converges_partial (x : Pair) (now na : Int) (f1 f2 f3 : List KeyId)
+    (hp : Reachable x.parent) (hc : Reachable x.child)
+    (hcoupled : x.coupled = true) (hnoroll : x.noRollInProgress = true)
+    (hf : if x.child.ca.hasPendingRequests x.ph then x.parent.ca.classes.length ≤ f2.length
+      else x.newClasses na ≤ f1.length) :
+    (x.syncs now na [f1, f2, f3]).converged na = true ∧
+    ∀ f, (x.syncs now na [f1, f2, f3]).sync now na f = x.syncs now na [f1, f2, f3] := by
+  have h := converges_any (coupled_of_bool hp hc hcoupled hnoroll) now na f1 f2 f3 hf
+  exact ⟨h.converged, h.sync_eq⟩
+
+/-! ### Non-vacuity: the witness pairs satisfy the hypotheses -/
+
+theorem xStart_coupled : Coupled xStart :=
+  coupled_of_bool (reachable_run .init _) (reachable_run .init _) (by decide) (by decide)
+
+theorem xConv_coupled : Coupled xConv :=
+  sync_coupled (sync_coupled xStart_coupled 10 900 [20] (fun _ => by decide)) 10 900 [] (fun h => by
+    revert h; decide)
+
+theorem xTwo_reachable : Reachable xTwo.parent ∧ Reachable xTwo.child :=
+  ⟨reachable_run .init _, reachable_run .init _⟩
+
+/-- Every pair of `exchange_converges_instances` is reachable, coupled, without a key roll and
+without an open request, and the fresh keys used there are enough. -/
+example :
+    (xStart.coupled = true ∧ xStart.noRollInProgress = true ∧
+      xStart.child.ca.hasPendingRequests xStart.ph = false ∧ xStart.newClasses 900 ≤ [20].length) ∧
+    (xShrunk.coupled = true ∧ xShrunk.noRollInProgress = true ∧
+      xShrunk.child.ca.hasPendingRequests xShrunk.ph = false ∧ xShrunk.newClasses 900 ≤ ([] : List KeyId).length) ∧
+    (xNothing.coupled = true ∧ xNothing.noRollInProgress = true ∧
+      xNothing.child.ca.hasPendingRequests xNothing.ph = false ∧ xNothing.newClasses 900 ≤ ([] : List KeyId).length) ∧
+    (xRegain.coupled = true ∧ xRegain.noRollInProgress = true ∧
+      xRegain.child.ca.hasPendingRequests xRegain.ph = false ∧ xRegain.newClasses 900 ≤ [21].length) ∧
+    (xTwo.coupled = true ∧ xTwo.noRollInProgress = true ∧
+      xTwo.child.ca.hasPendingRequests xTwo.ph = false ∧ xTwo.newClasses 900 ≤ [20, 21].length) ∧
+    (xMapped.coupled = true ∧ xMapped.noRollInProgress = true ∧
+      xMapped.child.ca.hasPendingRequests xMapped.ph = false ∧ xMapped.newClasses 900 ≤ [20].length) := by
+  decide
+
+/-- Non-vacuity of `exchange_converges_partial` with requests open at the start: the pair after
+the first sync of `xStart` (the new class has its request open). -/
+example :
+    let x := xStart.sync 10 900 [20]
+    x.coupled = true ∧ x.noRollInProgress = true ∧ x.child.ca.hasPendingRequests x.ph = true ∧
+    x.parent.ca.classes.length ≤ ([] : List KeyId).length + 1 := by decide
+
+/-- The convergence statements of `exchange_converges_instances` (first delegation, shrink to a
+part, shrink to nothing, regain, two classes, class-name mapping) as corollaries of the general
+theorem. -/
+theorem exchange_converges_instances_from_general :
+    (xStart.syncs 10 900 [[20], []]).converged 900 = true ∧
+    (xShrunk.syncs 10 900 [[], []]).converged 900 = true ∧
+    (xNothing.syncs 10 900 [[], []]).converged 900 = true ∧
+    (xRegain.syncs 10 900 [[21], []]).converged 900 = true ∧
+    (xTwo.syncs 10 900 [[20, 21], []]).converged 900 = true ∧
+    (xMapped.syncs 10 900 [[20], []]).converged 900 = true := by
+  have hconvP : Reachable xConv.parent := xConv_coupled.inv.rp
+  have hconvC : Reachable xConv.child := xConv_coupled.inv.rc
+  have hshrunkP : Reachable xShrunk.parent :=
+    Reachable.step (.childUpdateResources 7 [1]) hconvP
+  have hnothingP : Reachable xNothing.parent :=
+    Reachable.step (.updateRcvdCert 0 4 { res := [3, 4], na := 1000 } 500 []) hconvP
+  have hnothing : Coupled xNothing := coupled_of_bool hnothingP hconvC (by decide) (by decide)
+  have hy := sync_coupled hnothing 10 900 [] (fun _ => by decide)
+  have hregainP : Reachable xRegain.parent :=
+    Reachable.step (.updateRcvdCert 0 4 { res := [1, 2, 3, 4], na := 1000 } 500 []) hy.inv.rp
+  have hmappedP : Reachable xMapped.parent :=
+    Reachable.step (.childMapping 7 0 5) (reachable_run .init _ : Reachable xParent)
+  refine ⟨?_, ?_, ?_, ?_, ?_, ?_⟩
+  · exact (exchange_converges_quiet xStart 10 900 [20] [] (reachable_run .init _) (reachable_run .init _)
+      (by decide) (by decide) (by decide) (by decide)).1
+  · exact (exchange_converges_quiet xShrunk 10 900 [] [] hshrunkP hconvC
+      (by decide) (by decide) (by decide) (by decide)).1
+  · exact (exchange_converges_quiet xNothing 10 900 [] [] hnothingP hconvC
+      (by decide) (by decide) (by decide) (by decide)).1
+  · exact (exchange_converges_quiet xRegain 10 900 [21] [] hregainP hy.inv.rc
+      (by decide) (by decide) (by decide) (by decide)).1
+  · exact (exchange_converges_quiet xTwo 10 900 [20, 21] [] xTwo_reachable.1 xTwo_reachable.2
+      (by decide) (by decide) (by decide) (by decide)).1
+  · exact (exchange_converges_quiet xMapped 10 900 [20] [] hmappedP
+      (reachable_run .init _) (by decide) (by decide) (by decide) (by decide)).1
+
+/-! ### The hypotheses are necessary: reachable pairs on which `Pair.sync` never converges
+
+Common history (= `xConv`): the parent holds `{1,2,3,4}` in class 0 and entitles child 7 to
+`{1,2}`; the child has class 0 under parent 9 with key 20 certified for `{1,2}`. -/
+
+/-- the parent of `xConv` as a command history -/
+def pConvOps : List Cmd := [ .repoUpdate [], .addParent 99,
+    .updateEntitlements 99 [⟨0, [1, 2, 3, 4], 1000, []⟩] 0 [4],
+    .updateRcvdCert 0 4 { res := [1, 2, 3, 4], na := 1000 } 500 [],
+    .childAdd 7 [1, 2], .childCertify 7 0 20 none 900 ]
+
+/-- the child of `xConv` as a command history -/
+def cConvOps : List Cmd := [ .repoUpdate [], .addParent 9,
+    .updateEntitlements 9 [⟨0, [1, 2], 900, []⟩] 10 [20],
+    .updateRcvdCert 0 20 { res := [1, 2], na := 900 } 900 [] ]
+
+example : Sys.run {} pConvOps = xConv.parent ∧ Sys.run {} cConvOps = xConv.child := by decide
+
+/-- (F) The child is in `RollOld` (new key 30 activated, revocation of key 20 still to be sent);
+meanwhile the parent lost the child's resources and its `shrink_overclaiming` removed – revoked –
+the certificates of keys 20 and 30. -/
+def xRevoked : Pair :=
+  ⟨Sys.run {} (pConvOps ++ [.childCertify 7 0 30 none 900,
+      .updateRcvdCert 0 4 { res := [3, 4], na := 1000 } 500 []]),
+   Sys.run {} (cConvOps ++ [.keyrollInit [(0, 30)], .updateRcvdCert 0 30 { res := [1, 2], na := 900 } 900 [],
+      .keyrollActivate 900]), 7, 9⟩
+
+/-- Every sync sends the revocation request for key 20; the parent refuses it
+(`KeyUseNoIssuedCert`: the key is already marked revoked, the class still exists), the child
+stays in `RollOld` with its open request and therefore never fetches entitlements: the pair is
+a fixed point of `Pair.sync` that is not converged – the parent lists nothing for the child, the
+child keeps class 0 with certificates for `{1,2}` for ever.  What `noRollInProgress` (and, for
+the general statement, "the old key is still on file") excludes. -/
+theorem sync_stuck_after_parent_side_revocation :
+    Reachable xRevoked.parent ∧ Reachable xRevoked.child ∧ xRevoked.coupled = true ∧
+    xRevoked.noRollInProgress = false ∧
+    xRevoked.parent.exec (.childRevokeKey 7 0 20) = .refused .noIssuedCert ∧
+    xRevoked.parent.ca.entitlementsFor 7 900 = [] ∧
+    (xRevoked.child.ca.classes.map fun q => q.2.keys.variant) = [.rollOld] ∧
+    ∀ fs, (xRevoked.syncs 10 900 fs).converged 900 = false := by
+  refine ⟨reachable_run .init _, reachable_run .init _, by decide, by decide, by decide, by decide, by decide, ?_⟩
+  have hfix : ∀ f, xRevoked.sync 10 900 f = xRevoked := by
+    intro f
+    have hpend : xRevoked.child.ca.hasPendingRequests xRevoked.ph = true := by decide
+    unfold Pair.sync
+    simp only [hpend, if_true]
+    decide
+  intro fs
+  rw [syncs_of_fixed hfix fs]; decide
+
+/-- (B) The child issued a certificate with a request limit `{1,2}` to a child of its own
+(key 50); then the parent reduces the child's entitlement to `{1}`. -/
+def xLimit : Pair :=
+  ⟨Sys.run {} (pConvOps ++ [.childUpdateResources 7 [1]]),
+   Sys.run {} (cConvOps ++ [.childAdd 3 [1, 2], .childCertify 3 0 50 (some [1, 2]) 800]), 7, 9⟩
+
+/-- The first sync creates the request, every later sync sends it; the parent issues `{1}` each
+time, and each time the child refuses to store the certificate (`Error::limit`:
+`shrink_overclaiming` re-issues the grandchild's certificate with its old limit `{1,2}` on the
+reduced set `{1}`): from the second sync on the pair is a fixed point with the request still
+open.  What `noRequestLimits` excludes. -/
+theorem sync_stuck_with_request_limit :
+    Reachable xLimit.parent ∧ Reachable xLimit.child ∧ xLimit.noRequestLimits = false ∧
+    xLimit.childHasRepo = true ∧ xLimit.mappingInjective = true ∧ xLimit.classNamesDistinct = true ∧
+    xLimit.certsOnFile = true ∧ xLimit.noRollInProgress = true ∧
+    (xLimit.sync 10 900 []).child.exec (.updateRcvdCert 0 20 { res := [1], na := 900 } 900 []) =
+      .refused (.issue .limit) ∧
+    ∀ fs, (xLimit.syncs 10 900 ([] :: [] :: fs)).converged 900 = false := by
+  refine ⟨reachable_run .init _, reachable_run .init _, by decide, by decide, by decide, by decide, by decide,
+    by decide, by decide, ?_⟩
+  have hfix : ∀ f, (xLimit.syncs 10 900 [[], []]).sync 10 900 f = xLimit.syncs 10 900 [[], []] := by
+    intro f
+    have hpend : (xLimit.syncs 10 900 [[], []]).child.ca.hasPendingRequests (xLimit.syncs 10 900 [[], []]).ph = true := by
+      decide
+    unfold Pair.sync
+    simp only [hpend, if_true]
+    decide
+  intro fs
+  have hsplit : xLimit.syncs 10 900 ([] :: [] :: fs) = (xLimit.syncs 10 900 [[], []]).syncs 10 900 fs := rfl
+  rw [hsplit, syncs_of_fixed hfix fs]; decide
+
+/-- (A) The parent presents its two classes 0 and 1 to the child under the same name 5. -/
+def xSameName : Pair := ⟨xTwoParent.run [.childMapping 7 0 5, .childMapping 7 1 5], xChild, 7, 9⟩
+
+/-- `list` returns two classes named 5 (`{5}` and `{1}`); the child creates two classes named 5,
+both are certified by the one parent class that `parent_name_for_rcn 5` yields, and
+`find_parent_rc` then matches the first of them against both entitlements: from the third sync
+on the pair alternates between two states (request, certificate) and is converged in neither.
+What `mappingInjective` excludes. -/
+theorem sync_alternates_with_non_injective_mapping :
+    Reachable xSameName.parent ∧ Reachable xSameName.child ∧ xSameName.mappingInjective = false ∧
+    xSameName.childHasRepo = true ∧ xSameName.noRequestLimits = true ∧ xSameName.classNamesDistinct = true ∧
+    xSameName.certsOnFile = true ∧ xSameName.noRollInProgress = true ∧
+    (xSameName.parent.ca.entitlementsFor 7 900).map (·.rcn) = [5, 5] ∧
+    (let z := xSameName.syncs 10 900 [[20, 21], []]
+     (z.sync 10 900 []).sync 10 900 [] = z ∧ z.sync 10 900 [] ≠ z ∧
+     z.converged 900 = false ∧ (z.sync 10 900 []).converged 900 = false ∧
+     ∀ n, (z.syncs 10 900 (List.replicate n [])).converged 900 = false) := by
+  refine ⟨reachable_run (reachable_run .init _) _, reachable_run .init _, by decide, by decide, by decide,
+    by decide, by decide, by decide, by decide, ?_⟩
+  have h2 : ((xSameName.syncs 10 900 [[20, 21], []]).sync 10 900 []).sync 10 900 [] =
+      xSameName.syncs 10 900 [[20, 21], []] := by decide
+  refine ⟨h2, by decide, by decide, by decide, ?_⟩
+  have hcyc : ∀ n, ∀ w, (w = xSameName.syncs 10 900 [[20, 21], []] ∨
+        w = (xSameName.syncs 10 900 [[20, 21], []]).sync 10 900 []) →
+      (w.syncs 10 900 (List.replicate n [])).converged 900 = false := by
+    intro n
+    induction n with
+    | zero => intro w hw; rcases hw with rfl | rfl <;> decide
+    | succ n ih =>
+      intro w hw
+      simp only [List.replicate_succ, Pair.syncs]
+      apply ih
+      rcases hw with rfl | rfl
+      · exact Or.inr rfl
+      · exact Or.inl h2
+  exact fun n => hcyc n _ (Or.inl rfl)
+
+/-- (G) Between two syncs of the child the parent's own certificate shrinks to `{1,3,4}`
+(`shrink_overclaiming` re-issues the child's certificate with `{1}`) and grows back. -/
+def xReissued : Pair :=
+  ⟨Sys.run {} (pConvOps ++ [.updateRcvdCert 0 4 { res := [1, 3, 4], na := 1000 } 500 [],
+      .updateRcvdCert 0 4 { res := [1, 2, 3, 4], na := 1000 } 500 []]),
+   Sys.run {} cConvOps, 7, 9⟩
+
+/-- The parent lists `{1,2}` again, the child still holds its old certificate for `{1,2}` and
+asks for nothing; the certificate on file (and published) at the parent is the shrunk one, `{1}`:
+a fixed point that is not converged.  What `certsOnFile` excludes.  (In the code the parent
+reports the not-after time of the certificate on file; the child asks again only once that is a
+week or 10 % later than its own – `na` is an input of the model.) -/
+theorem sync_misses_parent_side_reissue :
+    Reachable xReissued.parent ∧ Reachable xReissued.child ∧ xReissued.certsOnFile = false ∧
+    xReissued.childHasRepo = true ∧ xReissued.mappingInjective = true ∧ xReissued.noRequestLimits = true ∧
+    xReissued.classNamesDistinct = true ∧ xReissued.noRollInProgress = true ∧
+    xReissued.parent.ca.issuedFor 7 0 20 = some { res := [1], na := 500 } ∧
+    (xReissued.parent.ca.entitlementsFor 7 900).map (·.res) = [[1, 2]] ∧
+    ∀ fs, (xReissued.syncs 10 900 fs).converged 900 = false := by
+  refine ⟨reachable_run .init _, reachable_run .init _, by decide, by decide, by decide, by decide, by decide,
+    by decide, by decide, by decide, ?_⟩
+  have hfix : ∀ f, xReissued.sync 10 900 f = xReissued :=
+    fun f => exchange_idempotent xReissued 10 900 f (by decide) (by decide)
+  intro fs
+  rw [syncs_of_fixed hfix fs]; decide
+
+/-- A child without a repository never leaves the refused `UpdateEntitlements`
+(`childHasRepo`). -/
+theorem sync_stuck_without_repository :
+    let x : Pair := ⟨xParent, Sys.run {} [.addParent 9], 7, 9⟩
+    Reachable x.parent ∧ Reachable x.child ∧ x.childHasRepo = false ∧
+    x.sync 10 900 [20] = x ∧ x.converged 900 = false := by
+  refine ⟨reachable_run .init _, reachable_run .init _, by decide, by decide, by decide⟩
 
 end KM.Props.C02
